@@ -149,13 +149,22 @@ class MessageSigner(object):
         is_compressed, recid, r, s = self._decode_signature(signature)
 
         # Calculate the specific public key used to sign this message.
-        y_parity = recid & 1
-        q = self._generator.possible_public_pairs_for_signature(
-            msg_hash, (r, s), y_parity=y_parity
-        )[0]
-        if recid > 1:
-            order = self._generator.order()
-            q = self._generator.Point(q[0] + order, q[1])
+        generator = self._generator
+        order = generator.order()
+        if not (1 <= r < order and 1 <= s < order):
+            raise EncodingError("r or s out of range")
+        # recid 2 and 3 mean the nonce point's x coordinate was r + order
+        x = r + order if recid > 1 else r
+        if x >= generator.p():
+            raise EncodingError("no curve point for signature")
+        try:
+            nonce_point = generator.points_for_x(x)[recid & 1]
+        except ValueError:
+            raise EncodingError("no curve point for signature")
+        inv_r = generator.inverse(r)
+        q = (s * inv_r) * nonce_point + (-(inv_r * msg_hash)) * generator
+        if q[0] is None:
+            raise EncodingError("signature recovers the point at infinity")
         return q, is_compressed
 
     def pair_matches_key(self, pair: Any, key: Any, is_compressed: bool) -> bool:
@@ -179,6 +188,8 @@ class MessageSigner(object):
         if isinstance(key_or_address, str):
             # they gave us a private key or a public key already loaded.
             key = self._network.parse.address(key_or_address)
+            if key is None:
+                return False
         else:
             key = key_or_address
 
@@ -208,7 +219,10 @@ class MessageSigner(object):
         Decode the internal fields of the base64-encoded signature.
         """
 
-        sig = a2b_base64(signature)
+        try:
+            sig = a2b_base64(signature)
+        except (ValueError, TypeError):
+            raise EncodingError("signature is not base64")
         if len(sig) != 65:
             raise EncodingError("Wrong length, expected 65")
 
